@@ -122,59 +122,69 @@ def run(ctx):
     skip = [(bb, t) for (bb, t) in rb.calls() if callee_name(t).endswith("::skip")]
     # the removal of the tail: the one truncate of the composition buffer
     bsp = [(bb, t) for (bb, t) in rb.calls() if callee_name(t).endswith("String::truncate") and self_path(rb.expr_operand(t["args"][0])) == (buf,)]
+    spo = [(bb, t) for (bb, t) in rb.calls() if callee_name(t).endswith("String::split_off") and self_path(rb.expr_operand(t["args"][0])) == (buf,)]
     bs_fn = None
     ok_idiom, why = False, "internal back-space not identified"
-    if len(cnt) != 1 or len(skip) != 1 or len(bsp) != 1:
+    split_form = len(spo) == 1 and not bsp
+    if split_form:
+        # the tail is *taken off* the text in one operation (`tail = text.split_off(at)`): what is removed is what is kept, whatever `at` is
+        bbb, bt = spo[0]
+        cbb = bbb
+        ok_idiom, why, take_local = suffix_bytes_idiom(prog, rb, buf)
+        writes = [(f, op, bb2) for (f, op, bb2, w) in phonetic.field_writes(prog, reph_fn, mods, body=rb) if f[:1] == (buf,)]
+        r2.ok("tail", "tail = text.split_off(at): the removed tail is the saved tail by construction")
+    if not split_form and (len(cnt) != 1 or len(skip) != 1 or len(bsp) != 1):
         r2.undecidable("shape", "expected one chars().count(), one skip(), one truncate of the text in the reph routine (found %d/%d/%d)" % (len(cnt), len(skip), len(bsp)),
                        common.fn_line(prog, reph_fn))
     else:
-        cbb, ct = cnt[0]
-        sbb, st = skip[0]
-        bbb, bt = bsp[0]
-        bs_fn = None
-        ok_idiom, why, take_local = suffix_bytes_idiom(prog, rb, buf)
-        len_src = peel_conv(rb.expr_operand(ct["args"][0]))
-        len_on_buf = contains_call(len_src, lambda n: n.endswith("str>::chars")) is not None and any(self_path(x) == (buf,) for x in len_src.walk())
-        len_local = ct["dest"]["l"]
-        skip_src = peel_conv(rb.expr_operand(st["args"][0]))
-        skip_on_buf = contains_call(skip_src, lambda n: n.endswith("str>::chars")) is not None and any(self_path(x) == (buf,) for x in skip_src.walk())
-        # skip argument = len - step
-        sk = strip_refs(rb.expr_operand(st["args"][1]))
-        sub = None
-        for x in sk.walk():
-            if x.k == "bin" and x.a[0] in ("Sub", "SubWithOverflow"):
-                sub = x
-        step_skip = step_bs = None
-        if sub is not None:
-            # operand locals straight from the MIR statement
-            for (i, j, s) in rb.stmts():
-                if s["k"] == "assign" and s["rv"]["k"] == "binop" and s["rv"]["op"] in ("Sub", "SubWithOverflow"):
-                    l_ = operand_local(rb, s["rv"]["l"])
-                    r_ = operand_local(rb, s["rv"]["r"])
-                    if l_ == len_local:
-                        step_skip = r_
-        step_bs = take_local
-        same_step = step_skip is not None and step_skip == step_bs
-        # no buffer write between count and the back-space
-        writes = [(f, op, bb2) for (f, op, bb2, w) in phonetic.field_writes(prog, reph_fn, mods, body=rb) if f[:1] == (buf,)]
-        early = [w for w in writes if w[2] != bbb and rb.dominates(cbb, w[2]) and not rb.dominates(bbb, w[2]) and bbb in rb.reachable_from(w[2])]
-        sk_core = sk
-        if sk_core.k == "field" and str(sk_core.a[1]) == "0":
-            sk_core = strip_refs(sk_core.a[0])
-        exact_sub = sk_core.k == "bin" and sk_core.a[0] in ("Sub", "SubWithOverflow")
-        if sub is not None and not exact_sub:
-            r2.violation("tail", "the number of code points skipped is %r, not exactly len − step: the saved tail and the removed tail differ" % (sk_core.a[0] if sk_core.k == "bin" else sk_core.k,),
-                         site_of(rb, sbb))
-        elif not (len_on_buf and skip_on_buf and sub is not None):
-            r2.violation("tail", "the saved tail is not chars().skip(len − step) of the buffer with len = chars().count() of the buffer", site_of(rb, sbb))
-        elif not same_step:
-            r2.violation("tail", "the number of code points saved (skip(len − _%s)) and removed (back-space(_%s)) are different values" % (step_skip, step_bs), site_of(rb, bbb))
-        elif early:
-            r2.violation("tail", "the buffer is modified (%s) between measuring it and removing the tail" % early[0][1], site_of(rb, early[0][2]))
-        elif not rb.dominates(sbb, bbb):
-            r2.violation("tail", "the tail is removed before it is saved", site_of(rb, bbb))
-        else:
-            r2.ok("tail", "temp = chars().skip(len − step); back-space(step) — same step, same text")
+        if not split_form:
+            cbb, ct = cnt[0]
+            sbb, st = skip[0]
+            bbb, bt = bsp[0]
+            bs_fn = None
+            ok_idiom, why, take_local = suffix_bytes_idiom(prog, rb, buf)
+            len_src = peel_conv(rb.expr_operand(ct["args"][0]))
+            len_on_buf = contains_call(len_src, lambda n: n.endswith("str>::chars")) is not None and any(self_path(x) == (buf,) for x in len_src.walk())
+            len_local = ct["dest"]["l"]
+            skip_src = peel_conv(rb.expr_operand(st["args"][0]))
+            skip_on_buf = contains_call(skip_src, lambda n: n.endswith("str>::chars")) is not None and any(self_path(x) == (buf,) for x in skip_src.walk())
+            # skip argument = len - step
+            sk = strip_refs(rb.expr_operand(st["args"][1]))
+            sub = None
+            for x in sk.walk():
+                if x.k == "bin" and x.a[0] in ("Sub", "SubWithOverflow"):
+                    sub = x
+            step_skip = step_bs = None
+            if sub is not None:
+                # operand locals straight from the MIR statement
+                for (i, j, s) in rb.stmts():
+                    if s["k"] == "assign" and s["rv"]["k"] == "binop" and s["rv"]["op"] in ("Sub", "SubWithOverflow"):
+                        l_ = operand_local(rb, s["rv"]["l"])
+                        r_ = operand_local(rb, s["rv"]["r"])
+                        if l_ == len_local:
+                            step_skip = r_
+            step_bs = take_local
+            same_step = step_skip is not None and step_skip == step_bs
+            # no buffer write between count and the back-space
+            writes = [(f, op, bb2) for (f, op, bb2, w) in phonetic.field_writes(prog, reph_fn, mods, body=rb) if f[:1] == (buf,)]
+            early = [w for w in writes if w[2] != bbb and rb.dominates(cbb, w[2]) and not rb.dominates(bbb, w[2]) and bbb in rb.reachable_from(w[2])]
+            sk_core = sk
+            if sk_core.k == "field" and str(sk_core.a[1]) == "0":
+                sk_core = strip_refs(sk_core.a[0])
+            exact_sub = sk_core.k == "bin" and sk_core.a[0] in ("Sub", "SubWithOverflow")
+            if sub is not None and not exact_sub:
+                r2.violation("tail", "the number of code points skipped is %r, not exactly len − step: the saved tail and the removed tail differ" % (sk_core.a[0] if sk_core.k == "bin" else sk_core.k,),
+                             site_of(rb, sbb))
+            elif not (len_on_buf and skip_on_buf and sub is not None):
+                r2.violation("tail", "the saved tail is not chars().skip(len − step) of the buffer with len = chars().count() of the buffer", site_of(rb, sbb))
+            elif not same_step:
+                r2.violation("tail", "the number of code points saved (skip(len − _%s)) and removed (back-space(_%s)) are different values" % (step_skip, step_bs), site_of(rb, bbb))
+            elif early:
+                r2.violation("tail", "the buffer is modified (%s) between measuring it and removing the tail" % early[0][1], site_of(rb, early[0][2]))
+            elif not rb.dominates(sbb, bbb):
+                r2.violation("tail", "the tail is removed before it is saved", site_of(rb, bbb))
+            else:
+                r2.ok("tail", "temp = chars().skip(len − step); back-space(step) — same step, same text")
         # after the back-space: push R, push HASANTA, push_str(temp)
         seq = []
         x = rb.blocks[bbb]["term"].get("target")
@@ -196,7 +206,8 @@ def run(ctx):
         good_seq = len(seq) == 3 and seq[0] == ("push", "র") and seq[1] == ("push", "্") and seq[2][0] == "push_str"
         if good_seq:
             e3 = seq[2][1]
-            src_ok = e3 is not None and contains_call(e3, lambda n: n.endswith("::collect")) is not None
+            src_ok = e3 is not None and (contains_call(e3, lambda n: n.endswith("::collect")) is not None
+                                         or (split_form and contains_call(e3, lambda n: n.endswith("String::split_off")) is not None))
             if src_ok:
                 r2.ok("reinsert", "push(র) push(্) push_str(temp)")
             else:
@@ -287,10 +298,10 @@ def run(ctx):
         short = fk.split("::")[-1] if prog.fns[fk].get("kind") != "Closure" else fk.split("::")[-2] + "::closure"
         for (bb, t) in b.calls():
             n = callee_name(t)
-            if any(n.endswith(s) for s in PANIC_CALLS):
+            if any(n.endswith(s) for s in PANIC_CALLS) and not n.endswith("String::split_off"):
                 n_ob += 1
                 r1.violation("%s@%s" % (n.split("::")[-1], short), "%s in the reph path can panic (e.g. on an empty text)" % n.split("::")[-1], site_of(b, bb))
-            if n.endswith("String::truncate"):
+            if n.endswith("String::truncate") or n.endswith("String::split_off"):
                 n_ob += 1
                 if fk == reph_fn and ok_idiom:
                     r1.ok("truncate@%s" % short, "char-boundary and range by the suffix-bytes idiom")
@@ -583,9 +594,9 @@ def closure_sum(prog, b, abb):
 
 def suffix_bytes_idiom(prog, ib, buf):
     """truncate(buf, buf.len() − fold(take(rev(chars(buf)), n), 0, |a, c| a + c.len_utf8()))"""
-    tr = [(bb, t) for (bb, t) in ib.calls() if callee_name(t).endswith("String::truncate")]
+    tr = [(bb, t) for (bb, t) in ib.calls() if callee_name(t).endswith("String::truncate") or callee_name(t).endswith("String::split_off")]
     if len(tr) != 1:
-        return False, "expected one String::truncate", None
+        return False, "expected one String::truncate / split_off", None
     bb, t = tr[0]
     if self_path(ib.expr_operand(t["args"][0])) != (buf,):
         return False, "truncate is not applied to the composition buffer", None
